@@ -89,8 +89,12 @@ def run(ctx):
         ctx.sample({'query': c['q'], 'A': c['A'], 'B': c['B'], 'model': e, 'implementation': {k2: g_.get(k2) for k2 in ('events', 'pulls', 'error')} if isinstance(g_, dict) else g_})
     # rbql-js/rbql.js is an anchor of this property too: the JavaScript leg runs language-neutral queries of this shape through rbql-js
     importlib.import_module('props.c19').js_leg(ctx, THEOREM, 'join', 600 if ctx.tier == 'quick' else 60000)
+    # ... and over JavaScript VALUES as single-column keys (null / undefined / NaN / infinities / -0 / numbers / booleans / look-alike strings)
+    importlib.import_module('props.c04jsval').run(ctx, THEOREM)
     # the pairing through the CSV front-end with a comment prefix (comment lines in the JOIN file are not records)
     importlib.import_module('props.c04csv').run(ctx, THEOREM)
+    # ... and with what real files carry (BOM, CRLF, quoting, latin-1) in the input file AND in the JOIN file, through query_csv of both ports
+    importlib.import_module('props.c04file').run(ctx, THEOREM)
     # the two sides of an ON condition: resolve_join_variables of both ports against JoinVars.v (the swap theorem's model)
     importlib.import_module('props.joinvars').run(ctx, THEOREM + ' ; C08_join_sides_swap (JoinVars.v)')
 
@@ -100,6 +104,10 @@ def replay(ctx, case):
         return importlib.import_module('props.c04csv').replay(ctx, case, THEOREM)
     if case.get('part') == 'joinvars':
         return importlib.import_module('props.joinvars').replay(ctx, case, THEOREM)
+    if case.get('part') == 'c04jsval':
+        return importlib.import_module('props.c04jsval').replay(ctx, case, THEOREM)
+    if case.get('part') == 'c04file':
+        return importlib.import_module('props.c04file').replay(ctx, case, THEOREM)
     if case.get('impl') == 'js':
         return importlib.import_module('props.c19').replay(ctx, case)
     ec.replay(ctx, case, THEOREM)
